@@ -3,16 +3,16 @@ from trkgen import *
 
 ID = "C06"
 THEOREM_MODULE = "SimVerif.Props.C06"
-NONTRIVIAL_FLAGS = {"multi-scene-batch", "trace-validated", "slow-consumer-probe", "compared-nonempty", "competition", "shards-interleaved"}
+NONTRIVIAL_FLAGS = {"pipelined-batches", "pipeline-overlap", "multi-scene-batch", "trace-validated", "slow-consumer-probe", "compared-nonempty", "competition", "shards-interleaved"}
 RULE = ("batch sequences over 1..4 scenes on the real batch tracker (distance shards 1..4, voting workers 1..4, seeded delays of the store workers, a consumer that retrieves immediately or only after a delay), "
         "and the same per-scene detection lists on the corresponding simple tracker in a second instance (a scene gets a call exactly when the batch contains it); per scene the two record streams are compared up to renaming of ids; "
         "for every batch the events logged through the similari_verif hooks (batch begin, dispatch, job taken, result sent, monitor decremented) plus the executor's own receive / probe events are replayed, thread by thread, as a path of the protocol model; "
-        "a watchdog in the engine turns a hang into a failure; non-trivial = multi-scene batches, validated traces, slow-consumer probes, non-empty comparisons; distinct = distinct request line")
+        "the same batches are also submitted pipelined (each as soon as the previous predict returned, results retrieved by another thread, immediately or lagging) and compared with the simple tracker as well; a watchdog in the engine turns a hang into a failure; non-trivial = multi-scene batches, validated traces, slow-consumer probes, non-empty comparisons; distinct = distinct request line")
 TRUSTED_BASE = ["Lean 4.33 kernel", "axioms: propext, Quot.sound, Classical.choice (at most)",
                 "models SimVerif/Model/BatchProtocol.lean (one batch: dispatch / take / send on a bounded(1) channel / monitor decrement / receive) and Model/Tracker.lean (data: a batch = the per-scene steps in any order, ids drawn per candidate) tied to src/trackers/{sort,visual_sort}/batch_api.rs and src/trackers/batch.rs by the differential run and by trace validation",
                 "interleaving semantics at the granularity of the logged events; crossbeam channel and Condvar behaviour are assumed (bounded(1): a send completes only into an empty slot)",
                 "event logs give each thread's own order exactly; the cross-thread order is reconstructed (any interleaving of the per-thread sequences that is a path of the model is accepted)"]
-ASSUMPTIONS = ["results of a batch are retrieved before the next batch is submitted (the property's proviso)", "scenes of one batch are distinct (HashMap keys)"]
+ASSUMPTIONS = ["results of a batch are retrieved before the next batch is submitted or from another thread (the property's proviso)", "scenes of one batch are distinct (HashMap keys)"]
 LEVEL_TEXT = ("Lean 4 theorems about the protocol model, for every number of scenes and workers and every schedule (induction over traces): the monitor always equals the number of jobs of the batch not yet decremented; "
               "when nothing is left to do exactly one result per scene has been delivered; in every reachable non-final state some transition is enabled (the consumer's receive being the proviso), and with an empty channel one of the tracker's own threads can move; "
               "every transition strictly decreases a weighted count of outstanding work, so every schedule terminates. Data refinement: scene steps of one batch commute (C04_frame), so a batch is the per-scene simple steps in any order. "
@@ -25,7 +25,8 @@ def generate(rng, tier):
     n, steps = {"quick": (14, 20), "thorough": (200, 40), "search": (50, 25)}.get(tier, (14, 20))
     cases = []
     for i in range(n):
-        h = history(rng, "bsort", steps, nscenes=rng.randint(1, 4), api_mix=(i % 4 == 0), shards=rng.randint(1, 4), vshards=rng.randint(1, 4))
+        kind = "bvisual" if i % 5 == 3 else "bsort"
+        h = history(rng, kind, steps, nscenes=rng.randint(1, 4), api_mix=(i % 4 == 0), shards=rng.randint(1, 4), vshards=rng.randint(1, 4))
         out = ["trk sel 0", "trk sched jitter %d" % rng.randrange(1 << 30)]
         body = []
         for l in h:
@@ -35,6 +36,12 @@ def generate(rng, tier):
         out += body + ["trk sched off", "trk sel 1"] + unbatch(h)
         for s in scenes_of(h):
             out.append("trk cmp 0 1 %d" % s)
+        if i % 4 != 0:
+            # the same batches once more, pipelined: each batch is submitted as soon as the previous predict
+            # returned, the results are retrieved by another thread (immediately or lagging)
+            out += ["trk sel 2", "trk sched jitter %d" % rng.randrange(1 << 30)] + pipe_lines(h, rng.choice([0, 0, 500, 3000])) + ["trk sched off"]
+            for s in scenes_of(h):
+                out.append("trk cmp 2 1 %d" % s)
         cases.append(out)
     return cases
 
